@@ -63,7 +63,7 @@ PROPS = {
                 rule="byte strings of every length 0..70 (compressed) / 0..130 (uncompressed); random x classified independently (valid / on-curve non-subgroup / off-curve) each with its x+p alias and -x; uncompressed: both signs of y, x+p, y+p, wrong y, trailing byte; boundary values 0,1,p-1,p,p+1,2^256-1."),
     "C07": dict(ties=['Formulas', 'GoIpa.Props.C07Concrete'], level="proof",
                 rule="elements reached by random histories (Add, Sub, Double, Neg, ScalarMul, AddMixed, Set, Normalize, MSM both engines, decode) in representations Z=1 / rescaled / sign-flipped, including the all-zero value; Bytes, Equal matrix over all pairs, decode(Bytes)."),
-    "C08": dict(ties=['Formulas', 'GoIpa.Lemmas.EdwardsAssoc', 'GoIpa.Props.C08Group', 'GoIpa.Props.C08Concrete'], level="proof",
+    "C08": dict(ties=['Formulas', 'GoIpa.Lemmas.EdwardsAssoc', 'GoIpa.Props.C08Group', 'GoIpa.Props.C08Order', 'GoIpa.Props.C08Concrete'], level="proof",
                 rule="random group histories plus explicit law instances ((s+t)P, s(P+Q), 0*P, (r-1)P+P, P-P, P+O, -P) with special scalars; every operation also executed with the receiver aliasing each operand; all representations; identity-class operands of ScalarMul."),
     "C09": dict(ties=['Msm', 'Selector', 'GoIpa.Lemmas.Pippenger', 'GoIpa.Lemmas.PipBits', 'GoIpa.Props.C09Msm'], level="proof", workers=4, model_workers=16,
                 rule="n crossing every window-size threshold up to 4097 (thorough 32768), NbTasks in {0,1,2,3,5,8,16,17,64,1024}, Montgomery and regular scalars, >=10% small scalars, duplicates / opposite points / identity, zero and r-1 scalars; every implemented window c in {4..16,20,21,22} through the internal entry point with boundary digit patterns, with and without first-chunk split."),
